@@ -9,6 +9,7 @@ structure SSt where
   n : Nat
   lt : Nat → Nat → Bool
   pool : List (SSet Nat)
+  tr : Bool := false          -- does the set type claim to be trivially relocatable?
 
 def cmpFor : String → Option (Nat → Nat → Bool)
   | "less" => some fun a b => a < b
@@ -22,7 +23,8 @@ def parseSetCfg (toks : List String) : Option SSt := do
   let n := ((kv toks "n").bind String.toNat?).getD 3
   let lt ← cmpFor ((kv toks "cmp").getD "less")
   let pool := ((kv toks "pool").bind String.toNat?).getD 3
-  pure { small := small, n := n, lt := lt, pool := List.replicate pool ⟨[], []⟩ }
+  let tr := (kv toks "tr").getD "0" == "1"
+  pure { small := small, n := n, lt := lt, pool := List.replicate pool ⟨[], []⟩, tr := tr }
 
 def SSt.get (s : SSt) (c : Nat) : SSet Nat := s.pool[c]?.getD ⟨[], []⟩
 def SSt.put (s : SSt) (c : Nat) (x : SSet Nat) : SSt := { s with pool := s.pool.set c x }
@@ -58,6 +60,8 @@ def setStep (s : SSt) (toks : List String) : String × String × Option Nat × S
     let es := s.elemsOf x
     let sz := es.length
     let skip : String × String × Option Nat × SSt := ("skip", "-", some 0, s)
+    -- byte-wise relocation of the container object: invisible to the model (no part of its state depends on an address)
+    if op == "reloc" then (if s.tr then ("ok", "-", some 0, s) else skip) else
     if s.small then
       -- ------------------------------------------------------------------ SmallSet
       match op, rest with
